@@ -106,7 +106,8 @@ func (w *Writer) Flush() (err error) {
 	if w.w != nil {
 		return w.w.Flush()
 	}
-	return w.lc.Flush()
+	w.err = w.lc.Flush()
+	return w.err
 }
 
 func (w *Writer) Close() (err error) {
@@ -116,5 +117,6 @@ func (w *Writer) Close() (err error) {
 	if w.w != nil {
 		return w.w.Close()
 	}
-	return w.lc.Close()
+	w.err = w.lc.Close()
+	return w.err
 }
